@@ -86,9 +86,55 @@ def run(res, tier, rng, table_diffs=()):
                 res.violation("machine model and vm.rs disagree on the real compiler's bytes (outcome, step count, stack height at Halt, collections or the per-instruction trace hash)",
                               dict(kind="model", input=s, impl=r, model=m, unchecked="lockstep correspondence Model/VM vs vm.rs on the real bytecode (the machine the theorems are about)"),
                               no_input=True)
+    run_sessions(res, reported)
+
+
+def run_sessions(res, reported):
+    """the retained compiler: every line of a session is compiled by the REAL retained compiler; its bytes must pass the
+    verified checker like any other top-level code, and running it must not fault"""
+    from .. import gen2
+    sessions = gen2.failure_then_declaration_sessions()
+    ans = core.impl(["sessionbytes 100000 " + " ".join(hx(l) for l in s) for s in sessions])
+    vreqs, vmeta = [], []
+    for s, a in zip(sessions, ans):
+        res.seen("S" + "\n".join(s), nontrivial=True)
+        res.count("session")
+        if a.startswith(("PANIC", "CRASH", "TIMEOUT")) or "FAULT" in a:
+            if reported < 8:
+                reported += 1
+                res.violation("a line of a retained session made the machine perform an out-of-contract access (or crashed it)",
+                              dict(kind="session-fault", input=s, impl=a[:600]))
+            continue
+        for k, part in enumerate(a.split(" ;; ")):
+            if " ## " in part:
+                vreqs.append("verify " + part.split(" ## ", 1)[1])
+                vmeta.append((s, k, part))
+    ver = core.model(vreqs)
+    for (s, k, part), v in zip(vmeta, ver):
+        res.count("session-line-verifier:" + v.split(" ")[0])
+        if not v.startswith("ok") and reported < 8:
+            reported += 1
+            res.violation("the retained compiler emitted bytecode for a session line that the verified checker does not certify",
+                          dict(kind="session-uncertified", input=s, line=k, verifier=v, impl=part[:600],
+                               unchecked="check(bytecode, inferred certificate) for the retained compiler's output"), no_input=True)
+    return reported
 
 
 def replay(res, rp):
+    if rp.get("kind", "").startswith("session"):
+        s = rp["input"]
+        a = core.impl(["sessionbytes 100000 " + " ".join(hx(l) for l in s)])[0]
+        print(a[:800])
+        bad = a.startswith(("PANIC", "CRASH", "TIMEOUT")) or "FAULT" in a
+        for part in a.split(" ;; "):
+            if " ## " in part:
+                v = core.model(["verify " + part.split(" ## ", 1)[1]])[0]
+                print("verify:", v)
+                bad = bad or not v.startswith("ok")
+        if bad:
+            print("VIOLATION property=C02 replay=replay")
+            return 1
+        return 0
     s = rp["input"]
     c = core.impl(["compile " + hx(s)])[0]
     r = core.impl(["runtrace 200000 " + hx(s)])[0]
